@@ -154,6 +154,7 @@ type mgrMachine struct {
 	nextPath  int
 
 	started, hsDone, closed bool
+	noop                    bool // the last action was skipped by its precondition guard
 	suspect                 map[uint64]bool
 	phantoms                int
 
@@ -588,7 +589,11 @@ func (m *mgrMachine) deliver(f peerFrame, variant int, what int) *vf.Verdict {
 		}
 		return m.doClose(true)
 	}
-	if 1+spareN > m.L && m.L >= protocol.MaxActiveConnectionIDs {
+	if 1+spareN > m.L && m.L < protocol.MaxActiveConnectionIDs {
+		// RFC 9000 5.1.1 MUST; only reachable in the spec-driven sub-domain (SetConnectionIDLimit(2..3))
+		return vf.Bad("C16/peer-ids/limit-below-builtin-not-enforced", "advertised active_connection_id_limit %d (SetConnectionIDLimit) but %d spare IDs + the one in use are stored and Add(seq %d) returned nil", m.L, spareN, f.Seq)
+	}
+	if 1+spareN > m.L {
 		return vf.Bad("C16/peer-ids/limit-not-enforced", "limit %d but %d spare IDs + the one in use are stored and Add(seq %d) returned nil", m.L, spareN, f.Seq)
 	}
 	return nil
@@ -617,6 +622,7 @@ func (m *mgrMachine) apply(op MgrOp) *vf.Verdict {
 	if m.closed {
 		return nil
 	}
+	m.noop = true // cleared once the action passed its precondition guard
 	m.opn[op.K]++
 	m.sigv = append(m.sigv, op.K[0], byte(op.RPT), byte(op.Idx), byte(op.Path), byte(op.N>>8))
 	canAdd := m.p.Persp == "server" || m.hsDone
@@ -626,6 +632,7 @@ func (m *mgrMachine) apply(op MgrOp) *vf.Verdict {
 		if m.started || m.initGen >= 2 || op.Len < 0 || op.Len > 20 {
 			return nil
 		}
+		m.noop = false
 		m.initGen++
 		nc := initCid(op.Len, m.initGen)
 		delete(m.cidSeq, m.known[0].cid)
@@ -653,7 +660,8 @@ func (m *mgrMachine) apply(op MgrOp) *vf.Verdict {
 		if !canAdd && !op.Hold {
 			return nil
 		}
-		m.started = true
+		m.noop = false
+		m.started = m.started || !op.Hold // a frame still in flight does not preclude the Retry / first-packet ID change
 		if !ok {
 			m.conformant = false
 			m.cl["exceed"] = true
@@ -677,7 +685,7 @@ func (m *mgrMachine) apply(op MgrOp) *vf.Verdict {
 		if !canAdd || op.Idx < 0 || op.Idx >= len(m.sent) {
 			return nil
 		}
-		m.started = true
+		m.started, m.noop = true, false
 		f := m.sent[op.Idx]
 		if f.delivered == 0 && op.Idx != len(m.sent)-1 {
 			m.cl["reorder"] = true
@@ -688,13 +696,14 @@ func (m *mgrMachine) apply(op MgrOp) *vf.Verdict {
 		if !canAdd || op.Idx < 0 || op.Idx >= len(m.sent) || m.sent[op.Idx].delivered == 0 {
 			return nil
 		}
-		m.started = true
+		m.started, m.noop = true, false
 		m.conformant = false
 		return m.deliver(m.sent[op.Idx], 1, op.What)
 	case "see":
 		if op.Idx < 0 || op.Idx >= len(m.inFlight) {
 			return nil
 		}
+		m.noop = false
 		m.peerSeen[m.inFlight[op.Idx]] = true
 		m.inFlight = append(m.inFlight[:op.Idx], m.inFlight[op.Idx+1:]...)
 		return nil
@@ -702,15 +711,16 @@ func (m *mgrMachine) apply(op MgrOp) *vf.Verdict {
 		if op.N < 0 || op.N > 20000 {
 			return nil
 		}
-		m.started = true
+		m.noop = false // packets are sent (Initial) before ChangeInitialConnID can happen: not "started"
 		return m.get(op.N)
 	case "get":
+		m.noop = false
 		return m.get(0)
 	case "hs":
 		if m.hsDone {
 			return nil
 		}
-		m.started, m.hsDone = true, true
+		m.started, m.hsDone, m.noop = true, true, false
 		m.mark()
 		m.m.SetHandshakeComplete()
 		adds := 0
@@ -754,12 +764,14 @@ func (m *mgrMachine) apply(op MgrOp) *vf.Verdict {
 		if !k.hasTok {
 			return nil
 		}
+		m.noop = false
 		want := (s == m.active || m.isProbing(s)) && m.retired[s] == 0
 		if got := m.m.IsActiveStatelessResetToken(k.tok); got != want {
 			return vf.Bad(m.sus(s, "C16/tokens/is-active-wrong"), "IsActiveStatelessResetToken(token of sequence number %d) = %v; in use %d, probing %v, retired %v", s, got, m.active, m.probing, m.retired[s] > 0)
 		}
 		return nil
 	case "close":
+		m.noop = false
 		m.cl["close"] = true
 		return m.doClose(op.Get)
 	}
@@ -770,7 +782,7 @@ func (m *mgrMachine) pathGet(path int) *vf.Verdict {
 	if m.deadPaths[path] || path < 0 {
 		return nil // precondition: the path managers never reuse a path ID
 	}
-	m.started = true
+	m.started, m.noop = true, false
 	if !slices.Contains(m.livePaths, path) {
 		m.livePaths = append(m.livePaths, path)
 	}
@@ -820,7 +832,7 @@ func (m *mgrMachine) pathGet(path int) *vf.Verdict {
 }
 
 func (m *mgrMachine) pathRetire(path int) *vf.Verdict {
-	m.started = true
+	m.started, m.noop = true, false
 	m.deadPaths[path] = true
 	if i := slices.Index(m.livePaths, path); i >= 0 {
 		m.livePaths = slices.Delete(m.livePaths, i, i+1)
@@ -1057,4 +1069,115 @@ func TestMgrModel(t *testing.T) {
 // TestMgrSpecLimit: the spec-driven client's sub-domain: limit 2..8 applied through SetConnectionIDLimit.
 func TestMgrSpecLimit(t *testing.T) {
 	vf.RunMachine(t, "mgr-spec-limit", 70, genMgrParams(true), newMgrMachine("mgr-spec-limit"))
+}
+
+// TestMgrExhaustive enumerates EVERY action sequence up to a length bound over a small alphabet
+// (server perspective, handshake completed first, limit protocol.MaxActiveConnectionIDs): new frames
+// with three Retire Prior To choices (delivered or held back), re-delivery of the first four frames,
+// the peer seeing the oldest RETIRE, Get, 15000 packets + Get, and two probed paths. Sequences that
+// contain an action refused by its precondition guard equal a shorter sequence and are pruned.
+func TestMgrExhaustive(t *testing.T) {
+	u := vf.U("mgr-exhaustive")
+	if vf.ReplayMode() {
+		t.Skip("failures of this unit are saved in mgr-model format and replay through TestMgrModel")
+	}
+	alphabet := []MgrOp{
+		{K: "new", Len: 8},               // Retire Prior To: unchanged
+		{K: "new", Len: 8, Hold: true},   // sent, not delivered now
+		{K: "new", Len: 8, RPT: 1 << 40}, // placeholder: retire everything before this ID (rpt = own number)
+		{K: "new", Len: 8, RPT: 1 << 41}, // placeholder: previous largest + 1
+		{K: "deliver", Idx: 0}, {K: "deliver", Idx: 1}, {K: "deliver", Idx: 2}, {K: "deliver", Idx: 3},
+		{K: "see", Idx: 0},
+		{K: "get"},
+		{K: "sent", N: 15000},
+		{K: "pget", Path: 0}, {K: "pget", Path: 1},
+		{K: "pret", Path: 0}, {K: "pret", Path: 1},
+	}
+	L := 5
+	if vf.Thorough() {
+		L = 7
+	}
+	si, sk := vf.Shard()
+	A := len(alphabet)
+	seq := make([]int, 1, L)
+	params := MgrParams{Persp: "server", InitLen: 8}
+	var cases, pruned int
+	for {
+		// shard by the first two symbols; one-symbol sequences run everywhere (pruning) and count on shard 0
+		count := si == 0
+		cut := -1 // position of the first refused action
+		if len(seq) >= 2 {
+			count = (seq[0]*A+seq[1])%sk == si
+			if !count {
+				cut = 1 // another shard's subtree
+			}
+		}
+		if cut < 0 {
+			if count {
+				cases++
+				u.Case()
+			}
+			mk := newMgrMachine("mgr-exhaustive")(params).(*mgrMachine)
+			cs := vf.MachineCase[MgrParams, MgrOp]{Params: params, Ops: []MgrOp{{K: "hs"}}}
+			v := vf.Guard("C16/mgr-exhaustive", func() *vf.Verdict {
+				if v := mk.Apply(cs.Ops[0]); v != nil {
+					return v
+				}
+				for i, sym := range seq {
+					op := alphabet[sym]
+					if op.K == "new" {
+						switch op.RPT {
+						case 1 << 40:
+							op.RPT = mk.nextSeq
+						case 1 << 41:
+							op.RPT = min(mk.maxRPTSent+1, mk.nextSeq)
+						default:
+							op.RPT = mk.maxRPTSent
+						}
+					}
+					cs.Ops = append(cs.Ops, op)
+					if v := mk.Apply(op); v != nil {
+						return v
+					}
+					if mk.noop || mk.closed {
+						cut = i
+						return nil
+					}
+				}
+				return mk.Finish(vf.Scratch())
+			})
+			if v != nil {
+				cut = len(cs.Ops) - 2 // extensions of a failing prefix fail the same way
+				if count && vf.U("mgr-model").Report(v, cs) {
+					t.Fatalf("VIOLATION %s: %s (case %+v)", v.Sig, v.Detail, cs)
+				}
+			} else if count && cut < 0 && (mk.cl["rotation"] || mk.cl["rpt-retired-active"]) {
+				u.NonTrivial(fmt.Sprint(seq))
+				if u.WantSample() && cases%4999 == 0 {
+					u.Sample(cs)
+				}
+			}
+			if count && cut < 0 {
+				for c := range mk.cl {
+					u.Class(c)
+				}
+			}
+		}
+		// next sequence in length-lexicographic DFS order
+		if cut >= 0 {
+			pruned++
+			seq = seq[:cut+1]
+		} else if len(seq) < L {
+			seq = append(seq, 0)
+			continue
+		}
+		for len(seq) > 0 && seq[len(seq)-1] == A-1 {
+			seq = seq[:len(seq)-1]
+		}
+		if len(seq) == 0 {
+			break
+		}
+		seq[len(seq)-1]++
+	}
+	u.Extra("exhaustive", fmt.Sprintf("all sequences of length<=%d over %d actions (after handshake completion, server, limit %d); %d subtrees pruned at a refused action, a closed connection or a (known) violation", L, A, protocol.MaxActiveConnectionIDs, pruned))
 }
